@@ -192,6 +192,29 @@ def dkrcht_shape(repo):
     r = re.search(r'DKRCHT_OLDS\s*=\s*0\s*;', mv); c = re.search(r'\bst_dkbvrc\s*\(', mv)
     return bool(r and c and r.start() < c.start() and len(re.findall(r'DKRCHT_OLDS', src)) == 4)
 
+def law_shapes(repo):
+    """law_set_random_seed stores every positive seed and, in the new style, re-seeds the engine - unconditionally;
+    law_uniform advances Random_value in the old style only and draws from the engine otherwise"""
+    src = strip(open(os.path.join(repo, 'src/Basic/Law.cpp'), errors='replace').read())
+    def body(name):
+        m = re.search(r'\b%s\s*\([^)]*\)\s*\{' % name, src)
+        if not m: return None
+        d = 0
+        for j in range(m.end() - 1, len(src)):
+            if src[j] == '{': d += 1
+            elif src[j] == '}':
+                d -= 1
+                if d == 0: return ''.join(src[m.end():j].split())
+        return None
+    b = body('void law_set_random_seed')
+    seed_ok = b is not None and re.sub(r'VERIF_RNG_EVENT\([^)]*\);', '', b) == 'if(seed>0){Random_value=seed;if(!Random_Old_Style)Random_gen.seed((unsigned)seed);}'
+    u = body('double law_uniform')
+    uni_ok = u is not None and re.sub(r'VERIF_RNG_EVENT\([^)]*\);', '', u) == (
+        'doublevalue=0.;if(Random_Old_Style){unsignedintrandom_product;random_product=Random_factor*Random_value;Random_value=random_product%Random_congruent;'
+        'if(Random_value==0)Random_value=1;value=(double)Random_value/(double)Random_congruent;value=mini+value*(maxi-mini);}'
+        'else{std::uniform_real_distribution<double>d{mini,maxi};value=d(Random_gen);}return(value);')
+    return seed_ok, uni_ok
+
 def translate(repo):
     files = list(FILES)
     for d in DIRS: files += [os.path.relpath(p, repo) for p in sorted(glob.glob(os.path.join(repo, d, '*.cpp')))]
@@ -221,6 +244,12 @@ def translate(repo):
     L.append('')
     L.append('(* st_dkrcht has the shape modelled by dk_step, is reached through mvndst only, and mvndst sets DKRCHT_OLDS = 0 first *)')
     L.append('Definition dkrcht_reset_at_entry : bool := %s.' % ('true' if dk_ok else 'false'))
+    seed_ok, uni_ok = law_shapes(repo)
+    L.append('')
+    L.append('(* law_set_random_seed has the modelled shape (set_seed2: every positive seed is stored and, in the new style, given to the')
+    L.append('   engine, without any other condition); law_uniform has the modelled shape (draw / draw2) *)')
+    L.append('Definition law_seed_shape : bool := %s.' % ('true' if seed_ok else 'false'))
+    L.append('Definition law_uniform_shape : bool := %s.' % ('true' if uni_ok else 'false'))
     return '\n'.join(L) + '\n', [{'file': f, 'name': n, 'type': t, 'class': c, 'writers': w, 'fn': fn} for f, n, t, c, w, fn in out]
 
 if __name__ == '__main__':
